@@ -720,9 +720,15 @@ func (e *env) evalAggregate(fc *FuncCall) (Value, error) {
 		state = st
 	}
 	for _, it := range items {
-		call := &FuncCall{Name: ag.SFunc, Args: []Expr{&Lit{V: state}, &Lit{V: it.vals[0]}}}
-		// strict builtin transition functions skip NULL input
-		if it.vals[0] == nil && ag.SFunc == "jsonb_concat" {
+		sf := ag.SFunc
+		sfSchema := ""
+		if i := strings.LastIndexByte(sf, '.'); i >= 0 {
+			sfSchema, sf = sf[:i], sf[i+1:]
+		}
+		call := &FuncCall{Schema: sfSchema, Name: sf, Args: []Expr{&Lit{V: state}, &Lit{V: it.vals[0]}}}
+		// the built-in jsonb_concat is strict, so the aggregate skips NULL inputs; a user-defined
+		// public.jsonb_concat (language sql, not declared strict) is called with the NULL and returns NULL
+		if it.vals[0] == nil && sf == "jsonb_concat" && sfSchema == "" {
 			continue
 		}
 		st, err := (&env{ctx: c, fr: &frame{}, tup: &tuple{}}).evalFunc(call)
